@@ -851,4 +851,54 @@ theorem split_of_position_inside (S : Schema) (doc doc' : Node) (pos depth : Nat
     omega
   · rw [sliceToks_balance sl hwf, hos, hoe]; omega
 
+/-! ### concrete instances: an isolating node inside a blockquote (the shape of the seeded `block_range` change)
+
+`doc: block+`, `blockquote: block+`, `iso: block+` (isolating), `paragraph: text*`.
+* `isoDoc = doc(blockquote(iso(p("a"))))`: the selection `3 … 5` (from inside the paragraph to the end of the
+  isolating node's content) and the selection `2 … 5` (the node's whole content) have the block range `(2, 2, 5)` —
+  depth `k = 2`, exactly the content window, not the node itself at depth `k − 1 = 1` (which a `<` for `<=` at the end
+  boundary answers, and whose lift moves the isolating node out of the blockquote); `lift_target` of that range is
+  `None` (the loop stops at the isolating node).  The collapsed selection `2 … 2` has the node itself, `(1, 1, 6)`.
+* `isoDoc2 = doc(blockquote(iso(blockquote(p("ab")))))`: the selection `4 … 5` has the block range `(3, 3, 7)`, its
+  lift target is `2` — the isolating node, not the outer blockquote —, and the lift step `2 … 8` lies inside `[1, 9)`.
+  `can_split(5, depth)` approves depths 1 and 2 (paragraph, inner blockquote) and refuses 3 (the isolating node).
+* wrapping the range `(2, 2, 5)` of `isoDoc` in a blockquote: the step covers `2 … 5`.
+That approved lifts / wraps / splits of this kind apply: Props/C12.lean (`liftTarget_lift_applies`, …). -/
+
+private def isoNT (name : String) (text inlineContent iso : Bool) (dfa : Array DfaState) : NodeType :=
+  { name := name, isText := text, isInline := text, isLeaf := text, isAtom := text, inlineContent := inlineContent,
+    isolating := iso, defining := false, code := false, dfa := dfa, markSet := none, attrs := [] }
+
+private def isoBlocks : Array DfaState := #[⟨false, [(1, 1), (2, 1), (3, 1)]⟩, ⟨true, [(1, 1), (2, 1), (3, 1)]⟩]
+
+/-- `doc: block+`, `blockquote: block+`, `iso: block+` (isolating), `paragraph: text*` -/
+private def isoSchema : Schema :=
+  { nodes := #[isoNT "doc" false false false isoBlocks, isoNT "blockquote" false false false isoBlocks,
+      isoNT "iso" false false true isoBlocks, isoNT "paragraph" false true false #[⟨true, [(4, 0)]⟩],
+      isoNT "text" true false false #[⟨true, []⟩]],
+    marks := #[], top := 0, textTy := 4 }
+
+private def p (s : List Nat) : Node := .elem 3 [] [] [.text s []]
+/-- `doc(blockquote(iso(p("a"))))`: the isolating node occupies `[1, 6)`, its content window is `[2, 5]`, depth 2 -/
+private def isoDoc : Node := .elem 0 [] [] [.elem 1 [] [] [.elem 2 [] [] [p [97]]]]
+/-- `doc(blockquote(iso(blockquote(p("ab")))))`: the isolating node occupies `[1, 9)`, content window `[2, 8]` -/
+private def isoDoc2 : Node := .elem 0 [] [] [.elem 1 [] [] [.elem 2 [] [] [.elem 1 [] [] [p [97, 98]]]]]
+
+example : (isoDoc.resolve 3).map (fun r => (r.depth, r.start 2, r.end_ 2, isoSchema.isolating (r.node 2),
+    C09.brShrink isoSchema r 3 5)) = some (3, 2, 5, true, 1) := by decide
+example : blockRange isoSchema isoDoc 3 5 = .ok (some (2, 2, 5)) := by rfl
+example : blockRange isoSchema isoDoc 2 5 = .ok (some (2, 2, 5)) := by rfl
+example : blockRange isoSchema isoDoc 2 2 = .ok (some (1, 1, 6)) := by rfl
+example : liftTarget isoSchema isoDoc 3 5 2 = some none := by decide
+example : blockRange isoSchema isoDoc2 4 5 = .ok (some (3, 3, 7)) := by rfl
+example : liftTarget isoSchema isoDoc2 4 5 3 = some (some 2) := by decide
+example : liftStep isoDoc2 4 5 3 2 = .ok (.replaceAround 2 8 3 7 ⟨[], 0, 0⟩ 0 true) := by rfl
+example : canSplit isoSchema isoDoc2 5 1 = some true ∧ canSplit isoSchema isoDoc2 5 2 = some true ∧
+    canSplit isoSchema isoDoc2 5 3 = some false := by decide
+example : splitStep isoDoc2 5 2 = .ok (.replace 5 5
+    ⟨[.elem 1 [] [] [.elem 3 [] [] []], .elem 1 [] [] [.elem 3 [] [] []]], 2, 2⟩ true) := by rfl
+example : findWrappingRange isoSchema isoDoc 3 5 2 1 = some (some [1]) := by decide
+example : wrapStep isoSchema isoDoc 3 5 2 [(1, [])] =
+    .ok (.replaceAround 2 5 2 5 ⟨[.elem 1 [] [] []], 0, 0⟩ 1 true) := by rfl
+
 end PM.C18
